@@ -46,6 +46,11 @@ FrameVerdict(tr, e) ==
      ELSE IF term.irm THEN "insert_mode_left_on"
      ELSE "-"
 
+\* A forced clear (and a size change) exists because what the terminal shows is no longer known: every cell becomes junk that no
+\* canvas contains, so only a complete repaint can satisfy the next frame.
+Junk == [c |-> 65533, fg |-> 5, bg |-> 3, fl |-> {4}, p |-> 0]
+Garble(t) == [t EXCEPT !.grid = [y \in 1..t.h |-> [x \in 1..t.w |-> Junk]]]
+
 Apply(e) ==
   CASE e.t = "put"    -> Put(term, e.c, e.w)
     [] e.t = "zw"     -> PutZero(term, e.c)
@@ -66,7 +71,8 @@ Apply(e) ==
     [] e.t = "si"     -> ShiftIn(term)
     [] e.t = "desig"  -> Designate(term, e.g, e.set)
     [] e.t = "decset" -> DecSet(term, e.n, e.on)
-    [] e.t = "resize" -> Resize(term, e.w, e.h)
+    [] e.t = "resize" -> Garble(Resize(term, e.w, e.h))
+    [] e.t = "clear"  -> Garble(term)
     [] OTHER          -> term
 
 Known == {"put", "zw", "cup", "bs", "cr", "lf", "cuu", "cud", "cuf", "cub", "sgr", "el", "ed", "ich", "irm", "so", "si",
